@@ -300,12 +300,22 @@ class Ribosome:
         # Process variable substitutions
         sequence = self._process_variables(sequence, context, warnings)
 
+        # All passes done: give substituted text its literal braces back
+        sequence = sequence.replace(self._ESCAPED_OPEN, "{{")
+
         return Protein(
             sequence=sequence,
             source_mrna=mrna.name,
             variables_bound=context,
             warnings=warnings
         )
+
+    # Substituted text (values, loop items, defaults, included renderings) is data:
+    # its '{{' is hidden from the later passes and restored at the end of translate().
+    _ESCAPED_OPEN = "{\x00{"
+
+    def _verbatim(self, value: Any) -> str:
+        return str(value).replace("{{", self._ESCAPED_OPEN)
 
     def synthesize(self, sequence: str, **context: Any) -> Protein:
         """
@@ -352,9 +362,9 @@ class Ribosome:
             if var_name in context:
                 value = context[var_name]
                 if filter_name in self.filters:
-                    return self.filters[filter_name](value)
+                    return self._verbatim(self.filters[filter_name](value))
                 warnings.append(f"Unknown filter: {filter_name}")
-                return str(value)
+                return self._verbatim(value)
             return match.group(0)
 
         result = re.sub(r'\{\{(\w+)\|(\w+)\}\}', replace_filtered, result)
@@ -377,14 +387,14 @@ class Ribosome:
             value_or_default = match.group(2)
             if value_or_default not in self.filters:
                 if var_name in context:
-                    result = result.replace(match.group(0), str(context[var_name]))
+                    result = result.replace(match.group(0), self._verbatim(context[var_name]))
                 else:
-                    result = result.replace(match.group(0), value_or_default)
+                    result = result.replace(match.group(0), self._verbatim(value_or_default))
 
         # Optional variables: {{?name}}
         def replace_optional(match: re.Match) -> str:
             var_name = match.group(1)
-            return str(context.get(var_name, ""))
+            return self._verbatim(context.get(var_name, ""))
 
         result = re.sub(r'\{\{\?(\w+)\}\}', replace_optional, result)
 
@@ -392,7 +402,7 @@ class Ribosome:
         def replace_simple(match: re.Match) -> str:
             var_name = match.group(1)
             if var_name in context:
-                return str(context[var_name])
+                return self._verbatim(context[var_name])
             warnings.append(f"Unbound variable: {var_name}")
             return match.group(0)
 
@@ -492,7 +502,7 @@ class Ribosome:
                 # Process the content with loop context
                 part = content
                 for key, value in loop_context.items():
-                    part = part.replace(f"{{{{{key}}}}}", str(value))
+                    part = part.replace(f"{{{{{key}}}}}", self._verbatim(value))
 
                 output_parts.append(part)
 
@@ -532,7 +542,7 @@ class Ribosome:
             template_name = match.group(1)
             if template_name in self.templates:
                 protein = self.translate(template_name, **context)
-                return protein.sequence
+                return self._verbatim(protein.sequence)
             return f"[Unknown template: {template_name}]"
 
         result = re.sub(pattern, replace_include, result)
